@@ -287,7 +287,8 @@ def execute(res, runs, space_note="", deadline_total=None, max_confirm=40,
         res.traces += regs
         res.nontrivial += c.get("nontrivial", 0)
         res.transitions += c.get("updates", 0) + c.get("calls", 0) + c.get("registrations", 0) \
-            + c.get("walks", 0) + c.get("report_fields", 0)
+            + c.get("walks", 0) + c.get("report_fields", 0) + c.get("encodings", 0) \
+            + c.get("decodes", 0) + c.get("generator_runs", 0)
         complete = not pr["deadline_hit"]
         if not complete:
             res.exhaustive = False
